@@ -122,9 +122,6 @@ def state_key(proj):
 
 def classify(rec, clauses):
     cl = "+".join(sorted(set(clauses)))
-    c = rec["call"]
-    if len(c["vs"]) > 1 and any(k == c["k"] and vs for k, vs in rec["pre"]):
-        return f"setmetrics-{cl}:list-into-existing-key"
     return f"setmetrics-{cl}"
 
 
